@@ -66,6 +66,7 @@ def other_type(vt):
 
 KEY = "entry/key-1"
 BY = "by/stander"
+BY2 = KEY + ".tmp"     # a sibling whose name looks like a temporary file of KEY
 FERNET_KEY = b"Zm9vYmFyZm9vYmFyZm9vYmFyZm9vYmFyZm9vYmFyMTI="
 
 
@@ -116,6 +117,7 @@ def prepare(comp, op, vt, d):
     old = new = None
     if comp == "filestore":
         obj.store(BY, b"bystander-bytes", {"x_marker": "BY"})
+        obj.store(BY2, b"bystander2-bytes", {"x_marker": "BY2"})
         if op != "store_fresh":
             old = value(vt, "old")
             obj.store(KEY, enc(old), {"x_marker": "OLD"})
@@ -130,6 +132,7 @@ def prepare(comp, op, vt, d):
             return old, None, lambda o: o.removedir("entry", recursive=True)
     else:
         cache_store(obj, BY, "bystander value", "BY")
+        cache_store(obj, BY2, "bystander2 value", "BY2")
         if op != "store_fresh":
             old = value(vt if op != "overwrite_other_type" else other_type(vt), "old")
             cache_store(obj, KEY, old, "OLD")
@@ -183,8 +186,14 @@ def read_entry(comp, d, order):
         try:
             obs["by"] = obj.get_bytes(BY)
             obs["by_marker"] = obj.get_metadata(BY).get("x_marker")
+            obs["listing"] = sorted(obj.keys())
         except Exception as e:
             obs["by"] = "ERR:" + type(e).__name__
+        try:
+            obs["by2"] = obj.get_bytes(BY2)
+            obs["by2_marker"] = obj.get_metadata(BY2).get("x_marker")
+        except Exception as e:
+            obs["by2"] = "ERR:" + type(e).__name__
     else:
         def rg():
             try:
@@ -213,6 +222,10 @@ def read_entry(comp, d, order):
             g = obj.get(BY)
             obs["by"] = None if g is None else g.data
             obs["by_marker"] = None if g is None else g.metadata.get("x_marker")
+            g2 = obj.get(BY2)
+            obs["by2"] = None if g2 is None else g2.data
+            obs["by2_marker"] = None if g2 is None else g2.metadata.get("x_marker")
+            obs["listing"] = sorted(k for k in obj.keys() if k is not None)
         except Exception as e:
             obs["by"] = "ERR:" + type(e).__name__
     return obs
@@ -227,8 +240,19 @@ def classify(comp, obs, old, new, op):
         by_ok = obs.get("by") == b"bystander-bytes" and obs.get("by_marker") == "BY"
     else:
         by_ok = obs.get("by") == "bystander value" and obs.get("by_marker") == "BY"
+    if comp == "filestore" and op == "removedir_recursive":
+        allowed = {"entry", KEY, BY2, "by", BY}   # BY2 lives inside the removed directory: it is part of the entry
+    elif comp == "filestore":
+        by_ok = by_ok and obs.get("by2") == b"bystander2-bytes" and obs.get("by2_marker") == "BY2"
+        allowed = {"entry", KEY, BY2, "by", BY}
+    else:
+        by_ok = by_ok and obs.get("by2") == "bystander2 value" and obs.get("by2_marker") == "BY2"
+        allowed = {KEY, BY, BY2}
     if not by_ok:
         return "bystander entry changed"
+    extra = [k for k in (obs.get("listing") or []) if k not in allowed]
+    if extra:
+        return "phantom entry listed after the crash"
     if not obs.get("has_data"):
         return None  # nothing: cache miss / key not found
     data = obs.get("data")
